@@ -632,7 +632,13 @@ def _run(args: argparse.Namespace) -> int:
         run_space_override = True
 
     if args.run_space_max_runs is not None or args.run_space_dry_run:
-        run_space_section = config.setdefault("run_space", {})
+        # Apply the flags to the block the parser will read: the top-level
+        # ``run_space`` if present, else the one nested under ``pipeline``.
+        run_space_section = config.get("run_space")
+        if run_space_section is None and isinstance(config.get("pipeline"), dict):
+            run_space_section = config["pipeline"].get("run_space")
+        if run_space_section is None:
+            run_space_section = config.setdefault("run_space", {})
         if not isinstance(run_space_section, dict):
             print("Invalid config: run_space block must be a mapping", file=sys.stderr)
             return EXIT_CONFIG_ERROR
